@@ -220,14 +220,19 @@ def gen_parity_pair(rng):
     return {"c0": c0, "c1": c1, "S": S, "E": None, "rel": rel, "second": rng.choice(["same", "swap"])}
 
 
+_SINGLE_COUNT = [0]
+
+
 def gen_single_pair(rng):
     """multi-input gate types used with ONE operand (and/or/xor act as buf, nand/nor/xnor as not) against buf / not"""
     base = lib.rand_dag(rng, rng.randint(1, 2), rng.randint(0, 2), max_fanin=2, names=lambda i: f"n{i}")
     g = base["nodes"][-1][0]
     for n in base["nodes"]:
         n[2] = False
-    t = rng.choice(lib.MULTI)
-    u = rng.choice(["buf", "not", "buf", "not"] + lib.MULTI)
+    _SINGLE_COUNT[0] += 1
+    seq = lib.MULTI + ["xnor", "xor"]                 # every multi-input type in turn (the parity gates twice) ...
+    t = seq[_SINGLE_COUNT[0] % 8]
+    u = ["not", "buf", rng.choice(lib.MULTI)][(_SINGLE_COUNT[0] // 8 + _SINGLE_COUNT[0]) % 3]   # ... against not, buf, another single-operand gate
     c0, c1 = _clone(base), _clone(base)
     c0["nodes"].append(["o", t, True, [g]])
     c1["nodes"].append(["o", u, True, [g]])
@@ -285,11 +290,12 @@ def gen_reject(rng):
 
 
 def generate(rng, tier):
+    _SINGLE_COUNT[0] = 0
     n = 100 if tier == "quick" else 900
     out = []
     for _ in range(n):
         r = rng.random()
-        out.append(gen_pair(rng) if r < 0.62 else gen_parity_pair(rng) if r < 0.75 else gen_single_pair(rng) if r < 0.87 else gen_reject(rng))
+        out.append(gen_pair(rng) if r < 0.62 else gen_parity_pair(rng) if r < 0.74 else gen_single_pair(rng) if r < 0.88 else gen_reject(rng))
     return out
 
 
